@@ -17,8 +17,11 @@ def rooted_in_file(t, body=None):
         return False
     """the collection is derived from the whole file (a search rooted at the file, or the file's own part list)"""
     while True:
-        if t[0] in ("proj", "elem", "iter"):
+        if t[0] in ("proj", "elem", "iter", "enumerate"):
             t = t[1]
+            continue
+        if t[0] == "call" and t[1].startswith("std::iter::Iterator::") and t[2]:
+            t = t[2][0]
             continue
         if t[0] == "call" and t[1] in core.SEARCH_FNS and len(t[2]) == 2:
             root = t[2][1]
@@ -37,6 +40,12 @@ def item_scoped(t):
             continue
         if t[0] == "elem":
             return True
+        if t[0] == "enumerate":
+            t = t[1]
+            continue
+        if t[0] == "call" and t[1].startswith("std::iter::Iterator::") and t[2]:
+            t = t[2][0]
+            continue
         if t[0] == "call" and t[1] in core.SEARCH_FNS and len(t[2]) == 2:
             root = t[2][1]
             if root == FILE:
@@ -65,6 +74,12 @@ def check_body(rule, crate, body, label):
                 # written in the loop and initialised outside: is it read inside (other than by its own update)?
                 carried.append(l)
         if filewide:
+            pos = [c[1].rsplit("::", 1)[-1] for c in T.calls_in(it) if c[1].startswith("std::iter::Iterator::")
+                   and c[1].rsplit("::", 1)[-1] in ("take_while", "skip_while", "skip", "take", "step_by", "scan", "zip", "map_while", "nth", "last", "peekable")]
+            if pos:
+                obs.append(Ob(rule + ".exit", body.path, "%s: the loop over the whole file is cut short by %s (what is visited depends on the position of other items)" % (label, "/".join(pos)),
+                              False, site=where, expected="every element of a file-wide search is visited", found=show(it)[:100],
+                              example="a free function placed before a contract"))
             for l in carried:
                 obs.append(Ob(rule + ".carried", body.path, "%s: mutable state `%s` survives from one top-level item to the next" % (label, body.locals[l]["name"]), False,
                               site=where, expected="no loop-carried local in a loop over the whole file",
